@@ -40,18 +40,33 @@ BuildS(s) ==
 Build == BuildS(Stack(case))
 
 Pack ==
-  /\ phase = "built" /\ phase' = "packed"
+  /\ phase = "built" /\ phase' = "packed" /\ ~FreeForm(pkt)
   /\ \E q \in PadVariants(pkt) : LET a == Asm(q, 1) IN wire' = a.b /\ fill' = a.v
   /\ src' = "lib" /\ UNCHANGED <<case, pkt, dec>>
   /\ Log("Pack", [x |-> 0], Split(wire', PayLen(pkt)))
 
+\* A free-form stack (DNS names sharing a suffix, PktWireLayers) has no unique
+\* serialisation.  What a sender emits for it is judged, not predicted: any bytes
+\* w that Encode the stack are a legal observation.  Model checking runs the
+\* oracle's own example styles through these actions (so the relation is checked
+\* against the constructive definition); trace validation runs the bytes the
+\* library produced through them.
+PackAs(w) ==
+  /\ phase = "built" /\ phase' = "packed" /\ FreeForm(pkt) /\ Encodes(w, pkt)
+  /\ wire' = w /\ fill' = FillAs(pkt, w)
+  /\ src' = "lib" /\ UNCHANGED <<case, pkt, dec>>
+  /\ Log("Pack", [x |-> 0], Split(w, PayLen(pkt)))
+PackAny == phase = "built" /\ FreeForm(pkt) /\ \E w \in {EncStack(q) : q \in PadVariants(pkt)} : PackAs(w)
+
+\* the parser is fed the oracle's bytes; those of a free-form stack in every style
 FeedS(s) ==
   /\ phase = "init" /\ phase' = "packed"
   /\ pkt' = s
   /\ LET a == Asm(s, 1) IN wire' = a.b /\ fill' = a.v
   /\ src' = "wire" /\ UNCHANGED <<case, dec>>
-  /\ Log("Feed", [pkt |-> s, d |-> case, wire |-> Split(wire', PayLen(s))], [ok |-> TRUE])
-Feed == FeedS(Stack(case))
+  /\ Log("Feed", [pkt |-> s, d |-> case, wire |-> Split(wire', PayLen(s)), free |-> IF FreeForm(s) THEN 1 ELSE 0],
+         [ok |-> TRUE])
+Feed == LET s == Stack(case) IN IF FreeForm(s) THEN \E c \in DnsStyles : FeedS(WithStyle(s, c)) ELSE FeedS(s)
 
 \* the header chain a caller sees after parsing: derived fields filled in,
 \* opaque payload kept as given
@@ -80,18 +95,24 @@ Edit ==
   /\ UNCHANGED <<case, src>>
 
 Repack ==
-  /\ phase \in {"parsed", "edited"} /\ phase' = "done"
+  /\ phase \in {"parsed", "edited"} /\ phase' = "done" /\ ~FreeForm(dec)
   /\ UNCHANGED <<case, pkt, fill, wire, dec, src>>
   \* the same bytes - except that DHCP pad options, which carry no information,
   \* may be placed afresh (a packet the library itself serialised has them
   \* where the library puts them, so for those the bytes are the same)
   /\ \E q \in PadVariants(dec) : Log("Repack", [x |-> 0], Split(EncStack(q), PayLen(pkt)))
 
+RepackAs(w) ==
+  /\ phase = "parsed" /\ phase' = "done" /\ FreeForm(dec) /\ Encodes(w, dec)
+  /\ UNCHANGED <<case, pkt, fill, wire, dec, src>>
+  /\ Log("Repack", [x |-> 0], Split(w, PayLen(pkt)))
+RepackAny == phase = "parsed" /\ FreeForm(dec) /\ \E w \in {EncStack(q) : q \in PadVariants(dec)} : RepackAs(w)
+
 \* ---- edits after a first serialisation (caches are warm): PktWireEdits.tla.
 \* On the object the caller built (after Pack) and on the parse result (after
 \* Repack); the next serialisation must be the bytes of the edited stack.
 \* Explored for the pattern-valued cases with small payloads (and in traces).
-ChangeOK == case.dl = 0 /\ case.vc = "P" /\ case.n <= 64
+ChangeOK == case.dl = 0 /\ case.vc = "P" /\ case.n <= 64 /\ ~FreeForm(pkt)
 CanChangeBuilt  == phase = "packed" /\ src = "lib" /\ ChangeOK /\ Editable(pkt) /\ Len(EditsOf(pkt)) > 0
 CanChangeParsed == phase = "done" /\ src = "wire" /\ ChangeOK /\ Editable(dec) /\ Len(EditsOf(dec)) > 0
 ChangeBuiltE(e) ==
@@ -113,7 +134,7 @@ RepackAgain ==
   /\ phase = "pchanged" /\ phase' = "pdone" /\ UNCHANGED <<case, pkt, fill, wire, dec, src>>
   /\ \E q \in PadVariants(dec) : Log("RepackAgain", [x |-> 0], Split(EncStack(q), PayLen(pkt)))
 
-Next == Build \/ Feed \/ Pack \/ Parse \/ Edit \/ Repack \/ ChangeBuilt \/ ChangeParsed \/ PackAgain \/ RepackAgain
+Next == Build \/ Feed \/ Pack \/ PackAny \/ Parse \/ Edit \/ Repack \/ RepackAny \/ ChangeBuilt \/ ChangeParsed \/ PackAgain \/ RepackAgain
 Spec == Init /\ [][Next]_vars
 
 ---------------------------------------------------------------------------
@@ -139,18 +160,24 @@ ParseRecovers == phase = "parsed" => Norm(dec) = Norm(Expand(fill))
 \* serialising the completed stack (derived fields are recomputed, not trusted).
 \* (Pack is deterministic except for the placement of DHCP pad options.)
 ReserialiseSame ==
-  /\ phase = "parsed" => EncStack(dec) = wire
-  /\ phase = "packed" => EncStack(fill) = wire
+  /\ phase = "parsed" => IF FreeForm(dec) THEN Encodes(wire, dec) ELSE EncStack(dec) = wire
+  /\ phase = "packed" => IF FreeForm(fill) THEN Encodes(wire, pkt) ELSE EncStack(fill) = wire
 
 \* what the actions promise is what the state holds
 ObservationsOK ==
   [][/\ last'.a = "Pack" => /\ last'.exp.hdr = Take(wire', Len(wire') - PayLen(pkt'))
                              /\ last'.exp.pay = PayLen(pkt')
-     /\ last'.a \in {"Repack", "RepackAgain"} => \E q \in PadVariants(dec') : last'.exp = Split(EncStack(q), PayLen(pkt'))
+     /\ last'.a \in {"Repack", "RepackAgain"} =>
+          IF FreeForm(dec') THEN last'.exp.pay = 0 /\ Encodes(last'.exp.hdr, dec')
+          ELSE \E q \in PadVariants(dec') : last'.exp = Split(EncStack(q), PayLen(pkt'))
      /\ last'.a = "PackAgain" => \E q \in PadVariants(pkt') : last'.exp = Split(EncStack(q), PayLen(pkt'))
      /\ last'.a = "Parse" => Norm(Expand(last'.exp.view)) = Norm(dec')]_vars
 
 \* ---- export for the replay harness
 Done   == phase \in {"bdone", "pdone"} \/ (phase = "done" /\ ~CanChangeParsed)
-Export == Done => PrintT(<<"H", ToJson(hist)>>)
+\* Free-form stacks: only the parser's half is exported for replay (the oracle's
+\* bytes in each style, and the header chain they must parse to); the sender's
+\* half has no predicted bytes and is bound by trace validation (PackAs, RepackAs).
+ExportNow == IF FreeForm(pkt) THEN phase = "parsed" /\ src = "wire" ELSE Done
+Export == ExportNow => PrintT(<<"H", ToJson(hist)>>)
 =============================================================================
